@@ -3,6 +3,7 @@ import ZstdVerif.Model.Walker
 import ZstdVerif.Model.Bound
 import ZstdVerif.Model.Stream
 import ZstdVerif.Model.SeqApi
+import ZstdVerif.Model.Seekable
 import Driver.Util
 namespace Driver.Dec
 open ZstdVerif
@@ -95,6 +96,31 @@ def step (_ : Unit) (ws : List String) : Unit × String :=
         | [a, b, c] => some ⟨a.toNat!, b.toNat!, c.toNat!⟩ | _ => none)
       let cfg : SeqApi.Cfg := ⟨bl.toNat!, w.toNat!, d.toNat!, mm.toNat!⟩
       ((), if SeqApi.acceptExplicit cfg (seqs.length + 2) seqs 0 srcSize.toNat! then "accept" else "reject")
+  | ["tbl", hx] =>
+      let b := if hx == "-" then ByteArray.empty else ByteArray.ofHex hx
+      ((), match Seekable.load b with
+        | .error _ => "err"
+        | .ok (es, _) =>
+          let n := es.length
+          let cum := Seekable.cumulative es
+          let cell (i : Nat) : String :=
+            if i < n then
+              let (co, dof) := cum.getD i (0, 0)
+              let e := es.getD i default
+              s!" {co}:{dof}:{e.cSize}:{e.dSize}"
+            else " E:E:E"
+          let cells := (List.range (n + 2)).filter (fun i => i < 6 || i + 3 > n) |>.map cell
+          let hc := es.foldl (fun h e => (h * 1000003 + e.cSize) % 18446744073709551616) 0
+          let hd := es.foldl (fun h e => (h * 1000003 + e.dSize) % 18446744073709551616) 0
+          s!"ok n={n}" ++ String.join cells ++ s!" sums={String.ofList (Nat.toDigits 16 hc)}:{String.ofList (Nat.toDigits 16 hd)}")
+  | ["idx", hx, ps] =>
+      let b := if hx == "-" then ByteArray.empty else ByteArray.ofHex hx
+      ((), match Seekable.load b with
+        | .error _ => "err"
+        | .ok (es, _) =>
+          let cum := (Seekable.cumulative es).toArray
+          let d (i : Nat) : Nat := (cum.getD i (0, 0)).2
+          "ok" ++ String.join ((ps.splitOn ",").map (fun p => " " ++ toString (Seekable.offsetToFrameIndex d es.length p.toNat!))))
   | ["walk", hx] =>
       let b := if hx == "-" then ByteArray.empty else ByteArray.ofHex hx
       ((), match Walker.frames (fun i => b.u8 i) (b.size + 1) 0 b.size with
